@@ -274,7 +274,7 @@ func ApplyNames(t *rapid.T, s *Spec) {
 			}
 			// names of universe types used in this injector's signature must stay visible
 			if usedInSignature(s, in, cand) {
-				cand = fmt.Sprintf("p%d", pi)
+				cand = fmt.Sprintf("zp%d", pi)
 			}
 			seen[cand] = true
 			in.Params[pi].Name = cand
